@@ -7,6 +7,7 @@ import FileD.Lemmas.Join
 import FileD.Lemmas.JoinTemplate
 import FileD.Lemmas.JoinStreams
 import FileD.Lemmas.K8sMultiline
+import FileD.Lemmas.JoinTemplates
 namespace FileD.PropsC15
 
 section JoinPart
@@ -137,6 +138,50 @@ theorem no_cross_stream_merge_needs_coherence :
     joined, joinedValue, value, fits, setPath, setFirst, asString, tagOf] at this
 
 end JoinPart
+
+section TemplatePart
+open FileD FileD.JoinTemplates FileD.SpecC15Templates
+
+/-- **the byte classes of the join_template fast path are the classes of the regexps it
+    replaces** — for all 256 bytes: `IsDigit` = `[0-9]`, `IsLetterOrUnderscore` = `[A-Za-z_]`,
+    `IsLetterOrUnderscoreOrDigit` = `[A-Za-z0-9_]` = `\w`, the letter classes, `ToLower` = `(?i)`
+    folding; `IsSpace` = `\s` except on form feed and carriage return; `IsHexDigit` = `[0-9,a-f]`
+    (class of `panic.+[0-9]x[0-9,a-f]+`) except on the comma. The modelled helpers are compared
+    with the real ones on every byte by `c15.ascii` on every run. -/
+theorem template_classes_eq_regexp_partial (c : UInt8) :
+    (c ≠ 12 → c ≠ 13 → isSpace c = reSpace c) ∧ isDigit c = reDigit c ∧
+    (c ≠ 44 → isHexDigit c = reHexClass c) ∧ isLetter c = reLetter c ∧
+    isLetterOrUnderscore c = reIdentStart c ∧ isLetterOrUnderscoreOrDigit c = reWord c ∧
+    toLower c = reFold c := by
+  have h := classesAgree_all c
+  simp only [classesAgree, Bool.and_eq_true, Bool.or_eq_true, beq_iff_eq] at h
+  obtain ⟨⟨⟨⟨⟨⟨⟨⟨h1, h2⟩, h3⟩, _⟩, _⟩, h6⟩, h7⟩, h8⟩, h9⟩ := h
+  refine ⟨fun a b => ?_, h2, fun a => ?_, h6, h7, h8, h9⟩
+  · rcases h1 with (h | h) | h
+    · exact absurd h a
+    · exact absurd h b
+    · exact h
+  · rcases h3 with h | h
+    · exact absurd h a
+    · exact h
+
+-- first / last members and the outside neighbours: '0' '9' 'a' 'f' in, '/' ':' '`' 'g' ',' out
+example : [48, 57, 97, 102].all isHexDigit = true ∧ [47, 58, 96, 103, 44, 70].all (fun c => !isHexDigit c) = true := by
+  decide
+
+/-- FULL STATEMENT: the helpers are exactly the regexp classes. False of the code on three bytes. -/
+def TemplateClassesEqRegexp : Prop :=
+  ∀ c : UInt8, isSpace c = reSpace c ∧ isHexDigit c = reHexClass c
+
+/-- carriage return is `\s` but not `IsSpace`; the comma is in `[0-9,a-f]` but not `IsHexDigit`
+    (known findings C15-template-isspace-vs-regexp, C15-template-hexclass-comma) -/
+theorem template_classes_counterexample : ¬ TemplateClassesEqRegexp := by
+  intro h
+  have := (h 13).1
+  revert this
+  decide
+
+end TemplatePart
 
 section K8sPart
 open FileD FileD.K8s FileD.SpecC15K8s
